@@ -315,7 +315,10 @@ def parse_model3(path):
             kv = dict(x.split("=", 1) for x in p[2:])
             cur = {"i": int(p[1]), "level": int(kv["level"]), "in_fragment": kv["in_fragment"] == "1",
                    "args": [a for a in kv["args"].split(",") if a != ""], "code": [], "V": None, "E": None,
-                   "exct": [], "entry": None, "main": None, "peak": None, "steps": None}
+                   "exct": [], "entry": None, "main": None, "peak": None, "steps": None,
+                   # the fragment predicate of the level's THEOREM (engine compile4 prints it; for compile3 the
+                   # tie's predicate prog_in_F 3 / 5 IS the predicate of compile_program_correct_F3 / F5)
+                   "in_proved": (kv["in_proved"] == "1") if "in_proved" in kv else (kv["in_fragment"] == "1")}
         elif l.startswith("C ") and cur is not None:
             p = l.split()
             cur["code"].append((int(p[1]), int(p[2]), int(p[3])))
@@ -352,7 +355,7 @@ def run_compiletie3(ctx, n, seed, level=3, keep=None):
     funcaddr_op = names.index("BYTECODE_ID_FUNC_ADDR")
     tmp = tempfile.mkdtemp(prefix="nvct.", dir="/var/tmp")
     res = {"programs": 0, "equal": 0, "instructions": 0, "run_equal": 0, "faults": 0, "opcodes": {},
-           "functions": 0, "max_depth": 0, "max_peak": 0,
+           "functions": 0, "max_depth": 0, "max_peak": 0, "proved": 0,
            "code_diffs": [], "run_diffs": [], "eval_diffs": [], "gen_problems": [], "distinct": set()}
     try:
         chunk = max(1, (n + NPROC - 1) // NPROC)
@@ -465,6 +468,8 @@ def run_compiletie3(ctx, n, seed, level=3, keep=None):
                                                  valuevm=(c["peak"] - 1, c["steps"] + c["entry"])))
                 else:
                     res["run_equal"] += 1
+                    if c.get("in_proved"):
+                        res["proved"] += 1
                     if ro.startswith("exc"):
                         res["faults"] += 1
                 if c["V"] != c["E"]:
@@ -491,5 +496,8 @@ def run_compiletie3(ctx, n, seed, level=3, keep=None):
         "program_functions_compared": res["functions"], "deepest_frame_chain": res["max_depth"],
         "largest_peak_sp": res["max_peak"],
         "distinct_code_regions": ndist, "run_equal": res["run_equal"], "runs_ending_in_exception": res["faults"],
+        # of the programs tied (code and run equal): how many satisfy the fragment predicate of the level's theorem
+        # (3: F3, 5: F5, 4: F4 = prog_in_P 5 || prog_in_P 6, 7: F7, 8: F8) and how many are tied only
+        "tied_and_inside_theorem_fragment": res["proved"], "tied_only": res["run_equal"] - res["proved"],
         "opcodes": res["opcodes"]}
     return res
